@@ -20,7 +20,8 @@ for a in sys.argv[3:]:
         tier = a
 keep = "--keep" in sys.argv
 prop = "C" + NN
-src = f"/tmp/seed-c{NN}/_seed/{n}"
+base = f"/tmp/seed{'2' if int(n) >= 3 else ''}-c{NN}"
+src = f"{base}/_seed/{n}"
 wt = f"/tmp/confirm-c{NN}-{n}"
 env = dict(os.environ, GOFLAGS="-mod=mod", GOPROXY="off", GOSUMDB="off", GOTOOLCHAIN="local",
            ARVADOS_API_HOST="verif.invalid", CGO_LDFLAGS="-L/tmp/pamstub/lib")
@@ -36,7 +37,7 @@ rc, out = sh(f"git -C /repo worktree add --detach {wt} HEAD -q", cwd="/")
 has_demo_diff = os.path.exists(f"{src}/demo.diff")
 demo_cmd = meta.get("demo_cmd", "")
 # normalise the demo command: run inside our worktree
-demo_cmd = demo_cmd.replace(f"/tmp/seed-c{NN}", wt)
+demo_cmd = demo_cmd.replace(base, wt)
 demo_cmd = re.sub(r"git apply [^&;]*demo\.diff\s*(&&|;)\s*", "", demo_cmd)
 demo_cmd = re.sub(r"git apply [^&;]*patch\.diff\s*(&&|;)\s*", "", demo_cmd)
 if "lib/controller" in demo_cmd and "-overlay" not in demo_cmd:
